@@ -189,6 +189,7 @@ struct Oracle<'a> {
     /// program points that are never reached because a scripted panic unwinds past them
     unwound: HashSet<(u32, Point)>,
     n_panics_caught: u64,
+    n_setup_control: u64,
     n_ended_by_complete_with: u64,
     n_ended_by_complete_with_unsampled: u64,
     /// indexes into `found` whose signature is reported without the runtime's name
@@ -221,6 +222,8 @@ fn kind(n: &Node) -> &'static str {
         (Variant::Guard(GuardEnd::Complete), true) => "async-guard-complete",
         (Variant::Guard(GuardEnd::CompleteWith), false) => "sync-guard-complete_with",
         (Variant::Guard(GuardEnd::CompleteWith), true) => "async-guard-complete_with",
+        (Variant::Setup { .. }, false) => "sync-setup",
+        (Variant::Setup { .. }, true) => "async-setup",
         (Variant::Manual { complete_with: false, .. }, _) => "new_span-dropped",
         (Variant::Manual { complete_with: true, .. }, _) => "new_span-complete_with",
         (Variant::ExplicitTrace(_), false) => "sync-explicit-trace-id",
@@ -297,6 +300,7 @@ impl<'a> Oracle<'a> {
             found: Vec::new(),
             unwound: HashSet::new(),
             n_panics_caught: 0,
+            n_setup_control: 0,
             n_ended_by_complete_with: 0,
             n_ended_by_complete_with_unsampled: 0,
             no_env_suffix: HashSet::new(),
@@ -361,6 +365,45 @@ impl<'a> Oracle<'a> {
 
     /// `outer`: the traceparent that is current where the node's span starts.
     fn walk(&mut self, node: &Node, outer: &Tp, via: &'static str) {
+        // a header pushed and entered by the span macro's `setup:` fn is, for the span, exactly a
+        // header pushed by hand around it: the span is created in it
+        let (setup_outer, setup_via);
+        let (outer, via) = match &node.variant {
+            Variant::Setup { header: Some(spec), .. } => match self.run.headers.iter().find(|(n, s, _)| *n == node.id && *s == u16::MAX) {
+                Some((_, _, h)) => {
+                    *self.n_headers.entry("setup-header").or_default() += 1;
+                    if let HeaderSpec::SameTrace { .. } = spec {
+                        if h.trace != outer.trace {
+                            self.bad(
+                                "interpreter:same-trace-header-built-from-wrong-current".into(),
+                                format!("setup header {} built at node {} where the model says {}", h.show(), node.id, outer.show()),
+                            );
+                        }
+                    }
+                    setup_outer = *h;
+                    setup_via = match header_kind(spec) {
+                        "header-sampled" => "setup-header-sampled",
+                        "header-unsampled" => "setup-header-unsampled",
+                        "header-invalid-flag-01" => "setup-header-invalid-flag-01",
+                        "header-invalid-flag-00" => "setup-header-invalid-flag-00",
+                        _ => "setup-header-same-trace",
+                    };
+                    (&setup_outer, setup_via)
+                }
+                None => {
+                    self.bad(
+                        "setup-did-not-run".into(),
+                        format!("node {}: the `setup:` fn of the span never ran", node.id),
+                    );
+                    (outer, via)
+                }
+            },
+            Variant::Setup { header: None, .. } => {
+                self.n_setup_control += 1;
+                (outer, via)
+            }
+            _ => (outer, via),
+        };
         let is_span = node.variant != Variant::Top;
         let enter = match self.obs.get(&(node.id, Point::Enter)).map(|v| v.as_slice()) {
             Some([o]) => *o,
@@ -789,7 +832,7 @@ impl<'a> Oracle<'a> {
                 Some((node, Role::Continued, via)) => self.bad(
                     format!(
                         "sampler-called-for-{}",
-                        if via.starts_with("header") || via == "remote" {
+                        if via.starts_with("header") || via.starts_with("setup-header") || via == "remote" {
                             format!("continued-trace:via={}", via)
                         } else {
                             format!("child-span:via={}", via)
@@ -888,6 +931,7 @@ fn eval<X: Env>(r: &mut Report, in_sampled: bool, seed: u64, index: u64, tree: &
     }
     r.observe("remote-hops", o.n_remote);
     r.observe("panics-unwound-and-caught", o.n_panics_caught);
+    r.observe("spans-with-a-setup-fn-that-touches-nothing", o.n_setup_control);
     r.observe("spans-ended-through-complete_with", o.n_ended_by_complete_with);
     r.observe("spans-ended-through-complete_with-in-unsampled-trace", o.n_ended_by_complete_with_unsampled);
     r.observe("thread-handoffs", o.n_handoffs);
